@@ -179,3 +179,24 @@ PROPS["C07"] = {
         {"test": "^TestSenderReports$", "checks": 15000, "shards": 14, "timeout": 900},
     ],
 }
+
+PROPS["C14"] = {
+    "pkg": "c14",
+    "technique": "property-based testing with an independent FlexFEC-03 decoder (round-trip oracle on wire bytes: decode mask, XOR-recover every protected packet)",
+    "level_text": "Generated batches (k, n biased to the mask-word boundaries; all header shapes; differing lengths; several batches per encoder) go through "
+                  "FlexEncoder03.EncodeFec and through the FEC interceptor; each repair packet is parsed from its bytes by a decoder written from the draft, and for every "
+                  "protected index the packet is reconstructed from the repair packet and the other named packets and compared byte for byte with the wire form. Exploration.",
+    "level_note": "trusts: the decoder written from draft-ietf-payload-flexible-fec-scheme-03; wire form of a media packet = rtp.Packet.Marshal into a fresh buffer "
+                  "(padding filler octets zero); batches the 03 masks cannot describe (> 109 packets) may be rejected (no repair packets)",
+    "assumptions": ["media packets of a batch have consecutive sequence numbers and one SSRC", "padding filler octets on the wire are zero"],
+    "quick": [
+        {"test": "^TestRegress", "timeout": 120},
+        {"test": "^TestEncodeFecRecoversAnySingleLoss$", "checks": 1500, "timeout": 300},
+        {"test": "^TestInterceptorFecAfterMedia$", "checks": 1000, "timeout": 300},
+    ],
+    "thorough": [
+        {"test": "^TestRegress", "timeout": 120},
+        {"test": "^TestEncodeFecRecoversAnySingleLoss$", "checks": 8000, "shards": 8, "timeout": 900},
+        {"test": "^TestInterceptorFecAfterMedia$", "checks": 5000, "shards": 8, "timeout": 900},
+    ],
+}
